@@ -1044,3 +1044,188 @@ def search_stop(tier='quick', seed=0, count=None):
         signal.alarm(0)
         signal.signal(signal.SIGALRM, old_handler)
     return cases, fails
+
+
+# ------------------------------------------------------------------ the laws at every position of random pipelines (C16)
+def _gf(x):
+    return _g(_f(x))
+
+
+def _batch_f(xs):
+    return [_f(x) for x in xs]
+
+
+def search_laws(tier='quick', seed=0, count=None):
+    """C16 across compositions: a random pipeline P (0..3 operations of the conformance search, errors excluded) is the
+    operand of a randomly chosen law; both sides of the law are built on P, the SAME random suffix of 0..2 operations is put on
+    top of both, and both results are observed completely (len, indexable, two iterations, items, keys, every index in
+    [-n-2, n+2) also as numpy scalars, present and absent keys; which exception refuses an undefined operation is not part
+    of a law).  Laws: map fusion; map over slice / index list / shuffle / sort by keys / concatenation / cache / batch;
+    nested slices compose; concatenate(split(k)) = identity; tile(2) = 2-fold concatenation; batch(b).unbatch() = identity
+    (iteration); filter commutes with an increasing selection (iteration)."""
+    os.environ.setdefault('OMP_NUM_THREADS', '1')
+    os.environ.setdefault('MKL_NUM_THREADS', '1')
+    import numpy as np
+    import lazy_dataset
+    from harness import laws_standin as LS
+    OPS = ops()
+    safe = [n for n in sorted(OPS) if n not in ('boom_map', 'catch', 'snapshot', 'prefetch', 'parmap', 'cache')]
+    N = count or (200 if tier == 'quick' else 2000)
+    fails, cases = [], 0
+    warnings.simplefilter('ignore')
+    master = random.Random(12000 + seed)
+
+    def source(rnd, base=0):
+        n = rnd.randrange(0, 6)
+        vals = [base + 10 * (i + 1) for i in range(n)]
+        if rnd.random() < 0.6:
+            keys = ['%s%d' % ('q' if base else 'k', i) for i in range(n)]
+            return lazy_dataset.new(dict(zip(keys, vals))), Ref([('v', v) for v in vals], keys), 'dict[%d]' % n
+        return lazy_dataset.new(list(vals)), Ref([('v', v) for v in vals]), 'list[%d]' % n
+
+    def apply_ops(ds_list, r, rnd_seed, k, names):
+        """the same k operations (same parameters) on every dataset of ds_list; -> (datasets, ref, description) or None"""
+        desc = ''
+        rnds = [random.Random(rnd_seed) for _ in ds_list]
+        pick = random.Random(rnd_seed + 1)
+        applied = tries = 0
+        while applied < k and tries < 10:
+            tries += 1
+            name = pick.choice(names)
+            states = [rn.getstate() for rn in rnds]
+            res = [OPS[name](d, r, rn) for d, rn in zip(ds_list, rnds)]
+            if any(x is None for x in res):
+                for rn, stt in zip(rnds, states):
+                    rn.setstate(stt)
+                continue
+            ds_list = [x[0] for x in res]
+            r = res[0][1]
+            desc += '.' + name
+            applied += 1
+        return ds_list, r, desc
+    while cases < N and len(fails) < 3:
+        rnd = random.Random(master.randrange(10 ** 9))
+        try:
+            ds, r, desc = source(rnd)
+            (ds,), r, d2 = apply_ops([ds], r, rnd.randrange(10 ** 6), rnd.randrange(0, 4), safe)
+            desc += d2
+        except Exception:      # noqa
+            continue
+        if not _vals_ok(r):
+            continue
+        n = r.n
+        law = rnd.choice(('fusion', 'map-slice', 'nested', 'concat-split', 'tile', 'map-shuffle', 'map-sort', 'map-concat', 'map-cache',
+                          'map-batch', 'batch-unbatch', 'filter-slice'))
+        only = None
+        rr_of = None
+        try:
+            if law == 'fusion':
+                a, b = ds.map(_f).map(_g), ds.map(_gf)
+                rr_of = lambda: O.ref_map(r, _gf)       # noqa
+            elif law == 'map-slice':
+                if not r.idx:
+                    continue
+                spec = rnd.choice(_slice_specs(n, rnd))
+                a, b = ds.map(_f)[spec], ds[spec].map(_f)
+                rr_of = lambda: O.ref_map(O.ref_slice(r, _positions(n, spec)), _f)       # noqa
+                law += ' %r' % (spec,)
+            elif law == 'nested':
+                if not r.idx:
+                    continue
+                s1 = rnd.choice([s_ for s_ in _slice_specs(n, rnd) if isinstance(s_, slice)])
+                s2 = rnd.choice([slice(1, None), slice(None, None, 2), slice(None, None, -1), slice(-2, None), slice(None, 1)])
+                idx = list(range(n))[s1][s2]
+                a, b = ds[s1][s2], (ds[idx] if idx else ds[:0])
+                rr_of = lambda: O.ref_slice(r, idx)       # noqa
+                law += ' [%s][%s]' % (s1, s2)
+            elif law == 'concat-split':
+                if not (r.idx and n):
+                    continue
+                k = rnd.randrange(1, min(n, 3) + 1)
+                a, b = lazy_dataset.concatenate(*ds.split(k)), ds
+                law += ' k=%d' % k
+            elif law == 'tile':
+                if not (r.len_ and n):
+                    continue
+                a, b = ds.tile(2), lazy_dataset.concatenate(ds, ds)
+                rr_of = lambda: O.ref_concat([r, r])       # noqa
+            elif law == 'map-shuffle':
+                if not r.idx:
+                    continue
+                s_ = rnd.randrange(100)
+                a, b = ds.map(_f).shuffle(rng=np.random.RandomState(s_)), ds.shuffle(rng=np.random.RandomState(s_)).map(_f)
+            elif law == 'map-sort':
+                if not (r.idx and r.has_keys):
+                    continue
+                a, b = ds.map(_f).sort(), ds.sort().map(_f)
+            elif law == 'map-concat':
+                q, rq, _ = source(rnd, base=5000)
+                a, b = ds.map(_f).concatenate(q.map(_f)), ds.concatenate(q).map(_f)
+                rr_of = lambda: O.ref_map(O.ref_concat([r, rq]), _f)       # noqa
+            elif law == 'map-cache':
+                if not r.idx:
+                    continue
+                a, b = ds.map(_f).cache(), ds.cache().map(_f)
+            elif law == 'map-batch':
+                bs = rnd.randrange(1, 4)
+                a, b = ds.map(_f).batch(bs), ds.batch(bs).map(_batch_f)
+                rr_of = lambda: O.ref_batch(O.ref_map(r, _f), bs, False)       # noqa
+                law += ' b=%d' % bs
+            elif law == 'batch-unbatch':
+                bs = rnd.randrange(1, 4)
+                a, b = ds.batch(bs).unbatch(), ds
+                only = ('iter0', 'iter1')
+                law += ' b=%d' % bs
+            else:
+                if not r.idx:
+                    continue
+                sl = rnd.choice([slice(1, None), slice(None, None, 2), slice(None, -1), slice(1, None, 3)])
+                pos = [i for i in list(range(n))[sl] if _p(r.outs[i][1])]
+                a, b = ds[sl].filter(_p), (ds[pos] if pos else ds[:0])
+                only = ('iter0', 'iter1')
+                law += ' [%s]' % (sl,)
+        except Exception as e:      # noqa
+            fails.append({'scenario': '%s; law %s' % (desc, law), 'mismatches': [{'clause': 'law:construction', 'observed': '%s: %s' % (type(e).__name__, str(e)[:120]), 'expected': 'both sides can be built'}]})
+            continue
+        cases += 1
+        # the reference of the law's result (only to steer which suffix operations are applicable)
+        try:
+            rr = rr_of() if rr_of is not None else None
+        except Exception:      # noqa
+            rr = None
+        sdesc = ''
+        if rr is not None and only is None:
+            try:
+                (a, b), rr, sdesc = apply_ops([a, b], rr, rnd.randrange(10 ** 6), rnd.randrange(0, 3), safe)
+            except Exception as e:      # noqa
+                fails.append({'scenario': '%s; law %s; suffix' % (desc, law), 'mismatches': [{'clause': 'law:suffix-construction', 'observed': '%s: %s' % (type(e).__name__, str(e)[:120]), 'expected': 'same operations apply to both sides'}]})
+                continue
+        probe = [k for k in (r.keys or [])][:3]
+        try:
+            oa, ob = LS._obs(a, probe), LS._obs(b, probe)
+        except BaseException as e:      # noqa
+            fails.append({'scenario': '%s; law %s%s' % (desc, law, sdesc), 'mismatches': [{'clause': 'law:observation', 'observed': '%s: %s' % (type(e).__name__, str(e)[:120]), 'expected': 'observable'}]})
+            continue
+        f28 = r.keys is not None and not r.has_keys        # keys exist but are refused (duplicates): selections on top cannot pair them -- listed finding F28
+
+        def refusal(o):
+            # items() that ends with an exception is a refusal, however many correctly paired items came before it (a
+            # concatenation of a keyed and a key-less part refuses when it reaches the key-less part)
+            return 'refused' if (isinstance(o, tuple) and len(o) == 2 and isinstance(o[1], tuple) and o[1] and o[1][0] in ('e', 'E')) else o
+        for k_ in (only or ('len', 'indexable', 'iter0', 'iter1', 'getitem', 'getitem_np', 'keys', 'items', 'getkey')):
+            if f28 and k_ == 'items':
+                continue
+            va, vb = oa.get(k_), ob.get(k_)
+            if k_ == 'items':
+                va, vb = refusal(va), refusal(vb)
+            if k_ in ('keys', 'items', 'getkey'):
+                # duplicate keys (a selection that repeats a position): a concatenation refuses them, a selection lists them --
+                # the uniqueness policy of keys() is not part of a law
+                dup = [o for o in (oa.get('keys'), ob.get('keys')) if isinstance(o, tuple) and o and o[0] == 'v' and len(set(o[1])) != len(o[1])]
+                if dup and 'refused' in (oa.get('keys'), ob.get('keys'), va, vb):
+                    continue
+            if va != vb:
+                fails.append({'scenario': '%s; law %s%s' % (desc, law, sdesc),
+                              'mismatches': [{'clause': 'law:' + k_, 'observed': repr(va)[:300], 'expected': repr(vb)[:300]}]})
+                break
+    return cases, fails
